@@ -11,7 +11,7 @@ struct DescSpec {
     bool leading_dot = false;
     int quoting = 0;	// 0 minimal own quoting, 1 vnaproperty_quote_key, 2 escape every byte
     int tail = 0;	// set: 0 "=value", 1 "#", 2 nothing, 3 junk; others: 0 nothing, 3 junk
-    int deco = 0;	// 1: white space between tokens
+    int deco = 0;	// 1, 2: white space between tokens; 3, 4: list subscripts written with one / two leading zeros (decimal all the same)
     bool as_format = false;
     std::string value, junk;
 };
@@ -84,7 +84,8 @@ static inline std::string render_desc(Ctx &c, const DescSpec &d)
     std::string r;
     bool can_space = true;	// white space is allowed here without changing the meaning
     bool any = false;
-    auto SP = [&]() { if (d.deco && can_space) r += " "; };
+    auto SP = [&]() { if ((d.deco == 1 || d.deco == 2) && can_space) r += " "; };
+    auto NUM = [&](long n) { return (d.deco >= 3 && n >= 0 ? std::string((size_t)d.deco - 2, '0') : std::string()) + std::to_string(n); };
     if (d.leading_dot) r += ".";
     for (size_t k = 0; k < d.path.el.size(); ++k) {
 	const DElem &e = d.path.el[k];
@@ -110,8 +111,8 @@ static inline std::string render_desc(Ctx &c, const DescSpec &d)
 	    can_space = true;
 	    r += "[";
 	    SP();
-	    if (e.t == 1) r += std::to_string(e.n);
-	    else if (e.t == 2) { r += std::to_string(e.n); SP(); r += "+"; }
+	    if (e.t == 1) r += NUM(e.n);
+	    else if (e.t == 2) { r += NUM(e.n); SP(); r += "+"; }
 	    else r += "+";
 	    SP();
 	    r += "]";
